@@ -14,6 +14,7 @@ import argparse
 import contextlib
 import importlib
 import json
+import zlib
 import multiprocessing as mp
 import os
 import sys
@@ -277,7 +278,13 @@ def main(argv=None) -> int:
     items = mod.work_items(a.tier, flt)
     items = sorted(items, key=lambda it: -float(it.get("cost", 1.0)))
     nw = max(1, min(a.workers, len(items)))
-    jobs = [(prop, it, seed * 100003 + i, a.tier) for i, it in enumerate(items)]
+    # the per-item Hypothesis seed depends on VERIF_SEED and on the item's identity (not on its position in the work
+    # list), so that a filtered run (--env / --entry) replays exactly the campaign the full run gives that item
+    def _item_seed(it):
+        ident = json.dumps({k: v for k, v in it.items() if k not in ("n", "cost")}, sort_keys=True, default=str)
+        return seed * 100003 + zlib.crc32(ident.encode()) % 99991
+
+    jobs = [(prop, it, _item_seed(it), a.tier) for it in items]
     results = []
     if nw == 1 or os.environ.get("VF_INPROC") == "1":
         for j in jobs:
